@@ -103,8 +103,14 @@ def bfg_text(decls, header=''):
             if d.get('xdeps'):
                 xd = ', extra_deps=[%s]' % ', '.join(
                     ref_expr({'f': '', 't': x}, decls) for x in d['xdeps'])
-            L.append("%s = build_step(%r, cmd=%s%s%s)" % (
-                n, outs if len(outs) > 1 else outs[0], cmd,
+            # every second step gives its command as several lines, the first
+            # a plain string (the files named in the later line are consumed
+            # all the same)
+            form = 'cmd=%s' % cmd
+            if n[1:].isdigit() and int(n[1:]) % 2 == 0:
+                form = "cmds=['true', %s]" % cmd
+            L.append("%s = build_step(%r, %s%s%s)" % (
+                n, outs if len(outs) > 1 else outs[0], form,
                 ', always_outdated=True' if d['always'] else '', xd))
         elif k == 'copy':
             xd = ''
@@ -126,6 +132,9 @@ def bfg_text(decls, header=''):
             L.append("%s = command(%r, cmd=[R, 'CMD-%s'], extra_deps=[%s])" %
                      (n, n, n, ', '.join(ref_expr({'f': '', 't': x}, decls)
                                          for x in d['deps'])))
+        elif k == 'tdeps':
+            L.append("test_deps(%s)" % ', '.join(
+                ref_expr({'f': '', 't': x}, decls) for x in d['deps']))
         elif k == 'test':
             if len(d['deps']) == 1:
                 L.append("test(%s)" % d['deps'][0])
